@@ -3,7 +3,7 @@ not from the Coq model.  Each monitor: fn(case, res) -> [ {rule, at, detail} ]."
 import collections
 from fractions import Fraction
 
-from common import E, A
+from common import E, A, resolved_entry
 
 
 def V(rule, at, **detail):
@@ -36,8 +36,9 @@ class T:
         eid = 0
         for sid, s in enumerate(self.cfg["simulation"]["sessions"]):
             for name in s.get("events", []):
-                self.events.append(dict(id=eid, name=name, session=sid, conf=self.cfg[name], cls=self.cfg[name]["class"],
-                                        enabled=bool(self.cfg[name].get("enabled", True)) or self.cfg[name]["class"] == "Probe"))
+                conf = resolved_entry(self.cfg, name)
+                self.events.append(dict(id=eid, name=name, session=sid, conf=conf, cls=conf["class"],
+                                        enabled=bool(conf.get("enabled", True)) or conf["class"] == "Probe"))
                 eid += 1
         self.error = res.get("error")
 
